@@ -6,7 +6,7 @@ from ..ref import cexpr
 from ..ref import tokens as tk
 from .gen_docs import mk
 
-ATTR_VALUES = [None, 1, 2, "s", {"k": [1]}]
+ATTR_VALUES = [None, 1, 2, "s", {"k": [1]}, 0, "", False]
 
 
 def schema_marks(model, limit=5):
